@@ -18,6 +18,8 @@ var checks = map[string]struct {
 	"C10": {props.C10, "a case is one monitor history (model behaviour replayed / random history recorded) or one execution of a cascade program on the real processor under one schedule; distinct = distinct history or (program, schedule); non-trivial = more than 3 operations / more than 8 property-level events"},
 	"C02": {props.C02, "a case is one execution of a cascade program on the real processor under one schedule (gate schedule or free run); distinct = distinct (program, mode, schedule); non-trivial = more than 8 property-level events"},
 	"C01": {props.C01, "a case is one rule set + cascade scope + event history executed on a fresh real processor (and through RuleIndex.Match/IsTriggering directly); distinct = distinct case id; non-trivial = more than one rule or more than one event"},
+	"C11": {props.C11, "a case is one run of 2..80 overlapping sink invocations (events with payload-dictated outcome) under one schedule (followed counterexample, random gate schedule, or free run on 2..16 workers); distinct = distinct (events, schedule); non-trivial = at least two invocations"},
+	"C12": {props.C12, "a case is one run of 2..16 interpreter threads (direct evaluation goroutines or sinks on pool workers) executing generated programs of nested mutex blocks with every exit kind under one schedule; distinct = distinct (programs, schedule); non-trivial = more than 6 property-level events"},
 	"C09": {props.C09, "a case is one execution of the real thread pool under one schedule (release sequence of the gate scheduler, or a free run); distinct = distinct (scenario, schedule); non-trivial = more than 3 scheduling decisions"},
 }
 
